@@ -49,7 +49,7 @@ impl RequestOption {
     }
 
     pub fn get_mask(options: &[Self]) -> u8 {
-        options.iter().map(|x| *x as u8).reduce(|a, b| a | b).unwrap()
+        options.iter().map(|x| *x as u8).reduce(|a, b| a | b).unwrap_or(0)
     }
 }
 
